@@ -2,6 +2,7 @@
 //! Correspondence harness: runs the real libzkchannels-crypto code and the Lean model on the same
 //! inputs / operation sequences and reports where they differ; also runs the per-property search
 //! for concrete failing inputs on the real code.
+mod abacus;
 mod dl;
 mod gen;
 mod kit;
